@@ -47,7 +47,7 @@ def main(argv):
         R.replay_path = replay_path
         R.rule = getattr(mod, "RULE", "")
         R.assumptions = list(getattr(mod, "ASSUMPTIONS", []))
-        mod.run(R)
+        runner.big_frame(mod.run, R)
         runner.stop_pool()
         return R.finish()
     except SystemExit:
